@@ -41,14 +41,18 @@ struct Captured {
 /// carrying RFC 4571 frames.
 enum Sock {
     Udp(UdpSocket),
-    Tcp(tokio::net::TcpStream, Vec<u8>),
+    /// stream, reassembly buffer, "the other side closed / reset the connection"
+    Tcp(tokio::net::TcpStream, Vec<u8>, bool),
 }
 
 impl Sock {
+    fn is_closed(&self) -> bool {
+        matches!(self, Sock::Tcp(_, _, true))
+    }
     async fn send(&mut self, bytes: &[u8], to: SocketAddr) -> Result<(), String> {
         match self {
             Sock::Udp(s) => s.send_to(bytes, to).await.map(|_| ()).map_err(|e| e.to_string()),
-            Sock::Tcp(s, _) => {
+            Sock::Tcp(s, _, _) => {
                 use tokio::io::AsyncWriteExt;
                 let mut f = (bytes.len() as u16).to_be_bytes().to_vec();
                 f.extend_from_slice(bytes);
@@ -70,13 +74,21 @@ impl Sock {
                     }
                 }
             }
-            Sock::Tcp(s, acc) => {
+            Sock::Tcp(s, acc, closed) => {
                 let mut buf = [0u8; 4096];
-                while let Ok(n) = s.try_read(&mut buf) {
-                    if n == 0 {
-                        break;
+                loop {
+                    match s.try_read(&mut buf) {
+                        Ok(0) => {
+                            *closed = true;
+                            break;
+                        }
+                        Ok(n) => acc.extend_from_slice(&buf[..n]),
+                        Err(e) if e.kind() == std::io::ErrorKind::WouldBlock => break,
+                        Err(_) => {
+                            *closed = true;
+                            break;
+                        }
                     }
-                    acc.extend_from_slice(&buf[..n]);
                 }
                 if acc.len() >= 2 {
                     let l = u16::from_be_bytes([acc[0], acc[1]]) as usize;
@@ -101,6 +113,12 @@ struct World {
     role: IceRole,
     socks: HashMap<&'static str, Sock>,
     tcp: bool,
+    /// shared single-port ICE-TCP listener: connections are re-opened after the listener dropped them
+    tcpmux: bool,
+    /// every address an endpoint has used so far (an endpoint reconnects from a new port)
+    past_addrs: Vec<(SocketAddr, &'static str)>,
+    /// replies of the agent to our own requests, by transaction id
+    replies: HashMap<[u8; 12], String>,
     addrs: HashMap<&'static str, SocketAddr>,
     seen: HashMap<[u8; 12], Captured>,
     rng: Rng,
@@ -136,6 +154,15 @@ impl World {
                 // gathers a passive TCP host candidate next to the UDP one
                 c.ice_tcp_policy = rustrtc::config::IceTcpPolicy::Enabled;
             }
+            "tcpmux" => {
+                // start == end: the process-wide shared listener, connections demultiplexed by the ufrag in the
+                // USERNAME of their first frame
+                let probe = std::net::TcpListener::bind("127.0.0.1:0").map_err(|e| e.to_string())?;
+                let port = probe.local_addr().unwrap().port();
+                drop(probe);
+                c.tcp_port_range_start = Some(port);
+                c.tcp_port_range_end = Some(port);
+            }
             "mux" => {
                 // process-wide shared socket (single-port multiplexing): a free port of our own
                 let probe = std::net::UdpSocket::bind("127.0.0.1:0").map_err(|e| e.to_string())?;
@@ -158,7 +185,7 @@ impl World {
                 return Err("gathering did not complete".into());
             }
         }
-        let tcp = cfg["sock"] == "tcp";
+        let tcp = cfg["sock"] == "tcp" || cfg["sock"] == "tcpmux";
         let locals = agent.local_candidates();
         let host = locals
             .iter()
@@ -173,7 +200,7 @@ impl World {
                 let s = tokio::net::TcpStream::connect(agent_addr).await.map_err(|e| e.to_string())?;
                 s.set_nodelay(true).ok();
                 addrs.insert(n, s.local_addr().unwrap());
-                socks.insert(n, Sock::Tcp(s, Vec::new()));
+                socks.insert(n, Sock::Tcp(s, Vec::new(), false));
             } else {
                 let s = UdpSocket::bind("127.0.0.1:0").await.map_err(|e| e.to_string())?;
                 addrs.insert(n, s.local_addr().unwrap());
@@ -189,6 +216,9 @@ impl World {
             role,
             socks,
             tcp,
+            tcpmux: cfg["sock"] == "tcpmux",
+            past_addrs: Vec::new(),
+            replies: HashMap::new(),
             addrs,
             seen: HashMap::new(),
             rng,
@@ -200,6 +230,11 @@ impl World {
 
     fn name_of(&self, a: SocketAddr) -> String {
         for (n, x) in &self.addrs {
+            if *x == a {
+                return n.to_string();
+            }
+        }
+        for (x, n) in &self.past_addrs {
             if *x == a {
                 return n.to_string();
             }
@@ -291,9 +326,11 @@ impl World {
                     }
                     StunClass::SuccessResponse => {
                         replies.insert(d.transaction_id, "success".to_string());
+                        self.replies.insert(d.transaction_id, "success".to_string());
                     }
                     StunClass::ErrorResponse => {
                         replies.insert(d.transaction_id, "error".to_string());
+                        self.replies.insert(d.transaction_id, "error".to_string());
                     }
                     _ => {}
                 }
@@ -381,37 +418,103 @@ impl World {
         t
     }
 
-    /// Ok(true): the agent handled the packet; Ok(false): the shared-socket demux dropped it.
+    /// (ICE-TCP) make sure the endpoint has a live connection; a connection the shared listener dropped is
+    /// replaced by a new one (from a new port)
+    async fn ensure_connected(&mut self, from: &'static str) -> Result<(), String> {
+        if !self.tcp {
+            return Ok(());
+        }
+        self.drain();
+        if self.socks[from].is_closed() {
+            let old = self.addrs[from];
+            self.past_addrs.push((old, from));
+            let s = tokio::net::TcpStream::connect(self.agent_addr).await.map_err(|e| e.to_string())?;
+            s.set_nodelay(true).ok();
+            self.addrs.insert(from, s.local_addr().unwrap());
+            self.socks.insert(from, Sock::Tcp(s, Vec::new(), false));
+        }
+        Ok(())
+    }
+
+    /// Ok(true): the agent handled the packet; Ok(false): a demux layer dropped it (shared UDP socket: no
+    /// session for the source; shared TCP listener: connection dropped).
+    /// "Handled" is normally the `pkt_done` hook event. On the shared TCP listener other evidence counts as
+    /// well - the agent's reply to this very transaction, the listener closing the connection, or a harmless
+    /// sentinel frame sent behind the packet on the same connection having been handled - so that a code path
+    /// that handles a frame without reaching the hook is still observed instead of stalling the run.
     async fn send_and_wait_handled(&mut self, from: &str, bytes: &[u8]) -> Result<bool, String> {
+        let from: &'static str = if from == "P" { "P" } else { "X" };
+        self.ensure_connected(from).await?;
         let h = rustrtc::verif::hash32(bytes);
         let me = self.addrs[from].to_string();
+        let mut txid = [0u8; 12];
+        txid.copy_from_slice(&bytes[8..20]);
         let t0 = Instant::now();
         // UDP may lose a datagram even on loopback (a loaded machine): the same bytes are sent again
         // every few seconds - a retransmission is a legitimate STUN event and changes no expectation
         let mut last_send: Option<Instant> = None;
+        let mut sentinel: Option<u32> = None;
         let mut spins = 0u32;
         loop {
             if last_send.map(|t| t.elapsed() > Duration::from_secs(3)).unwrap_or(true) {
                 let to = self.agent_addr;
                 // (a TCP stream loses nothing: one transmission only)
                 if !(self.tcp && last_send.is_some()) {
-                    self.socks.get_mut(from).unwrap().send(bytes, to).await?;
+                    if let Err(e) = self.socks.get_mut(from).unwrap().send(bytes, to).await {
+                        if self.tcpmux {
+                            return Ok(false); // the listener had already reset the connection
+                        }
+                        return Err(e);
+                    }
                     self.n_sent += 1;
                 }
                 last_send = Some(Instant::now());
             }
+            let mut verdict: Option<bool> = None;
             for e in rustrtc::verif::take_events() {
-                if e["comp"] == "ice"
-                    && (e["ev"] == "pkt_done" || e["ev"] == "mux_drop")
-                    && e["h"].as_u64() == Some(h as u64)
-                    && e["src"] == me.as_str()
-                {
-                    // let tasks the handler may have woken or spawned run until they block
-                    for _ in 0..32 {
-                        tokio::task::yield_now().await;
-                    }
-                    return Ok(e["ev"] == "pkt_done");
+                if e["comp"] != "ice" || e["src"] != me.as_str() {
+                    continue;
                 }
+                if (e["ev"] == "pkt_done" || e["ev"] == "mux_drop") && e["h"].as_u64() == Some(h as u64) {
+                    verdict = Some(e["ev"] == "pkt_done");
+                } else if e["ev"] == "tcpmux_drop" {
+                    verdict = Some(false);
+                } else if e["ev"] == "pkt_done" && sentinel.is_some() && e["h"].as_u64() == sentinel.map(|x| x as u64) {
+                    verdict = verdict.or(Some(true));
+                }
+            }
+            if verdict.is_none() && self.tcpmux {
+                self.drain();
+                if self.replies.contains_key(&txid) {
+                    verdict = Some(true); // answered: it was handled, hook event or not
+                } else if self.socks[from].is_closed() {
+                    verdict = Some(false);
+                } else if sentinel.is_none() && t0.elapsed() > Duration::from_millis(400) {
+                    // a response nobody waits for, behind the packet on the same connection
+                    let tx = self.txid();
+                    let mapped = self.agent_addr;
+                    let sb = build_response(self, Builder::Repo, tx, "success", mapped);
+                    sentinel = Some(rustrtc::verif::hash32(&sb));
+                    let to = self.agent_addr;
+                    if self.socks.get_mut(from).unwrap().send(&sb, to).await.is_err() {
+                        verdict = Some(false);
+                    }
+                }
+            }
+            if let Some(v) = verdict {
+                // let tasks the handler may have woken or spawned run until they block
+                for _ in 0..32 {
+                    tokio::task::yield_now().await;
+                }
+                if !v && self.tcpmux {
+                    // the listener dropped the connection: wait until our side has seen it
+                    let t1 = Instant::now();
+                    while !self.socks[from].is_closed() && t1.elapsed() < Duration::from_secs(5) {
+                        self.drain();
+                        tokio::time::sleep(Duration::from_millis(1)).await;
+                    }
+                }
+                return Ok(v);
             }
             if t0.elapsed() > PKT_DEADLINE {
                 return Err(format!(
@@ -703,11 +806,13 @@ async fn apply(w: &mut World, act: &Value, both: bool, pick: Builder) -> Result<
                 let d = w.send_and_wait_handled(&from, &bytes).await?;
                 out.delivered.push(d);
                 // the reply (if any) was sent before the handler finished; give loopback delivery a moment
-                let mut r = w.drain().remove(&tx);
+                w.drain();
+                let mut r = w.replies.remove(&tx);
                 let t0 = Instant::now();
                 while r.is_none() && t0.elapsed() < Duration::from_millis(3) {
                     tokio::task::yield_now().await;
-                    r = w.drain().remove(&tx);
+                    w.drain();
+                    r = w.replies.remove(&tx);
                 }
                 out.reply.push(r.unwrap_or_else(|| "none".into()));
                 out.builders.push(format!("{b:?}"));
